@@ -189,14 +189,28 @@ func (cl *Loader) load(file string) (config map[string]interface{}, err error) {
 				return nil, fmt.Errorf("load import error: %v", err)
 			}
 
-			err = mergo.Merge(&config, raw, mergo.WithOverride, mergo.WithAppendSlice, mergo.WithTypeCheck)
+			err = mergeImported(&config, raw)
 			if err != nil {
-				return nil, err
+				return nil, fmt.Errorf("%s: %w", file, err)
 			}
 		}
 	}
 
 	return config, nil
+}
+
+// mergeImported merges an imported file into the importing one. mergo panics on
+// values it cannot combine (a section decoded from YAML as
+// map[interface{}]interface{} merged into one decoded from JSON or TOML as
+// map[string]interface{}); that is reported as an error instead.
+func mergeImported(dst *map[string]interface{}, src map[string]interface{}) (err error) {
+	defer func() {
+		if r := recover(); r != nil {
+			err = fmt.Errorf("import cannot be merged: %v", r)
+		}
+	}()
+
+	return mergo.Merge(dst, src, mergo.WithOverride, mergo.WithAppendSlice, mergo.WithTypeCheck)
 }
 
 func (cl *Loader) loadDir(dir string) (map[string]interface{}, error) {
@@ -217,7 +231,7 @@ func (cl *Loader) loadDir(dir string) (map[string]interface{}, error) {
 			return nil, fmt.Errorf("%s: %v", importFile, err)
 		}
 
-		err = mergo.Merge(&cm, cml, mergo.WithOverride, mergo.WithAppendSlice, mergo.WithTypeCheck)
+		err = mergeImported(&cm, cml)
 		if err != nil {
 			return nil, fmt.Errorf("%s: %v", importFile, err)
 		}
